@@ -170,4 +170,21 @@ Proof.
   rewrite A. cbn [bind]. destruct (symbol_for e1 0) as [s'|] eqn:SF; [|exact I].
   destruct (add_padding_total e1 s' SF) as (e2 & ->). exact I.
 Qed.
+(* the symbol is the first listed one that holds the greedy ASCII stream *)
+Theorem ascii_plan_first_fit data symbols modes cw s :
+  optimize_fn data 0 symbols modes = Ok (Some [(0, Ascii)]) ->
+  encode_data_internal optimize_fn data symbols None modes false false = Ok (cw, s) ->
+  first_symbol_big_enough_for symbols (N.of_nat (length (flat_map aitem_cw (greedy data)))) = Some s.
+Proof.
+  intros HP. unfold encode_data_internal. cbv zeta. cbn [bind]. set (e := with_size data symbols modes false).
+  unfold codewords. destruct (e_symbols e) as [|s0 sr] eqn:ES; [discriminate|]. rewrite <- ES.
+  destruct (_ <? _); [discriminate|]. destruct (upper_limit_for_number_of_codewords _ _); [|discriminate].
+  change (e_data e) with data. change (cw_len e) with 0. change (e_symbols e) with symbols. change (e_modes e) with modes.
+  rewrite HP. cbn [lift bind].
+  set (e0 := mkenc _ _ _ _ _ _ _ _).
+  destruct (main_loop_stays (6 * length (e_data e0) + 12) e0 ltac:(split; reflexivity) eq_refl ltac:(lia)) as (e1 & A & (ST1 & Y1 & N1 & M1) & D1 & C1).
+  rewrite A. cbn [bind]. unfold symbol_for. destruct (first_symbol_big_enough_for _ _) as [s'|] eqn:FF; [|discriminate].
+  destruct (add_padding e1 s') as [e2| |]; cbn [bind]; try discriminate. intros [= _ <-].
+  rewrite Y1, N.add_0_r in FF. unfold cw_len in FF. rewrite C1 in FF. exact FF.
+Qed.
 End AsciiPlan.
